@@ -51,7 +51,7 @@ theorem eval_call_proc (f : Nat) (xc : X.Ctx) (g : String) (args : List X.Expr) 
 
 /-- **A function call as a whole expression.** -/
 theorem exec_callExpr {G : GCtx} (ok : G.OK) (fuel : Nat) (hcs : ∀ k, k < fuel → CallSpec G k)
-    {pi : PInfo} (hpi : pi ∈ G.procs) (sp dep : Nat) (hi : Nat → Word) (hlo : G.lo ≤ sp) (hspv : sp + G.S pi ≤ G.spv)
+    {pi : PInfo} (hpi : pi ∈ G.procs) (sp dep : Nat) (hi : Nat → Word) (hlo : G.lo ≤ sp) (hspv : sp + G.S pi + pi.po + pi.p.formals.length ≤ G.spv + 1)
     (hstack : G.spv ≤ sp + dep * G.smax) (g : String) (args : List X.Expr) (hg : g ∈ G.pnames)
     (hp : ∀ e ∈ args, pureE e = true) (σ : X.St)
     (gs : GS) (code : Code) (gs' : GS) (i : Nat) (a b : Word) (mem : Mem)
@@ -295,7 +295,7 @@ theorem exec_call_func (f : Nat) (xc : X.Ctx) (g : String) (args : List X.Expr) 
   · exact ⟨"evaluation order of actuals matters (impure call)", by simp [ho]⟩
 
 theorem execS_callStmt {G : GCtx} (ok : G.OK) (fuel : Nat) (hcs : ∀ k, k < fuel → CallSpec G k)
-    {pi : PInfo} (hpi : pi ∈ G.procs) (sp dep : Nat) (hi : Nat → Word) (hlo : G.lo ≤ sp) (hspv : sp + G.S pi ≤ G.spv)
+    {pi : PInfo} (hpi : pi ∈ G.procs) (sp dep : Nat) (hi : Nat → Word) (hlo : G.lo ≤ sp) (hspv : sp + G.S pi + pi.po + pi.p.formals.length ≤ G.spv + 1)
     (hstack : G.spv ≤ sp + dep * G.smax) (g : String) (args : List X.Expr) (hg : g ∈ G.pnames)
     (hp : ∀ e ∈ args, pureE e = true) (σ : X.St) :
     ExecS (KOf G pi sp dep hi) (G.iEpi pi) (optStmt (annotS (fun _ => none) (.call g args))) σ
@@ -359,7 +359,7 @@ theorem execS_callStmt {G : GCtx} (ok : G.OK) (fuel : Nat) (hcs : ∀ k, k < fue
 /-! ### The induction -/
 
 def StmtLSpec (G : GCtx) (fuel : Nat) : Prop :=
-  ∀ pi ∈ G.procs, ∀ sp dep hi, G.lo ≤ sp → sp + G.S pi ≤ G.spv → G.spv ≤ sp + dep * G.smax →
+  ∀ pi ∈ G.procs, ∀ sp dep hi, G.lo ≤ sp → sp + G.S pi + pi.po + pi.p.formals.length ≤ G.spv + 1 → G.spv ≤ sp + dep * G.smax →
     ∀ ss σ, okS4L G.pnames ss = true →
       ExecSL (KOf G pi sp dep hi) (G.iEpi pi) (optStmts (annotSL (fun _ => none) ss)) σ (X.execSeq fuel G.xc ss σ)
 
